@@ -1,0 +1,28 @@
+//go:build verif
+
+package verifhook
+
+import (
+	"net/http"
+
+	"go.uber.org/zap"
+
+	"github.com/linkedin/Burrow/core/internal/httpserver"
+	"github.com/linkedin/Burrow/core/protocol"
+)
+
+// NewHTTPHandler builds an httpserver.Coordinator on app, runs its real Configure (which reads viper) and
+// returns the router it serves. No listener is opened (that is Start's job). Configure may panic.
+func NewHTTPHandler(app *protocol.ApplicationContext) http.Handler {
+	hc := &httpserver.Coordinator{App: app, Log: zap.NewNop()}
+	hc.Configure()
+	return hc.VerifHandler()
+}
+
+// ResetMetrics forgets every series of the Prometheus gauge vectors.
+func ResetMetrics() { httpserver.VerifResetMetrics() }
+
+// DeleteTopicMetrics / DeleteConsumerMetrics are the functions the cluster and consumer modules call next
+// to the storage request when they delete a topic or a group.
+func DeleteTopicMetrics(cluster, topic string)    { httpserver.DeleteTopicMetrics(cluster, topic) }
+func DeleteConsumerMetrics(cluster, group string) { httpserver.DeleteConsumerMetrics(cluster, group) }
